@@ -570,6 +570,17 @@ def handle (toks : List String) : String :=
     match parseNat label with
     | some l => Mesh.linkName dir l (nc == "1")
     | none => "bad-request"
+  | ["mesh-links", dir, nc, rows] =>
+    let parseRow (r : String) : Option (Nat × List String) :=
+      match r.splitOn ":" with
+      | [l, fs] => (parseNat l).map fun n => (n, if fs == "" then [] else fs.splitOn ".")
+      | _ => none
+    match (if rows == "-" then some [] else (rows.splitOn ";").mapM parseRow) with
+    | some rs =>
+      let (st, ok) := Mesh.links dir (nc == "1") rs []
+      let ents := (st.map fun (n, fr) => n ++ "=" ++ ".".intercalate fr).toArray.qsort (· < ·) |>.toList
+      (if ok then "ok " else "abort ") ++ "|".intercalate ents
+    | none => "bad-request"
   | ["slices-map", code, n] =>
     match parseList parseNat n, Slices.perm code.toList, Slices.inv code.toList with
     | some [nc, nr, ns], some p, some sg =>
